@@ -33,6 +33,7 @@ ANG = 1e-10
 KB = 1.380649e-23
 QE = 1.602176634e-19
 
+JCOLS = ['atom index', 'start site', 'destination site', 'start time', 'stop time']
 _mon = Monitor()
 
 
@@ -180,6 +181,22 @@ def check_jumps(tr, j, sys_, occ, ctx, what, wit, rng):
         ctx.count('rates_not_available:' + str(exc)[:30])
         return
     part_counters = [p.counter() for p in parts]
+    # the parts count jumps by the parent's definition: recounting a part's own transitions with the parent's
+    # settings gives the part's jump table
+    r_par = int(getattr(j, 'minimal_residence', 0))
+    for pi, p in enumerate(parts):
+        try:
+            again = p.transitions.jumps(minimal_residence=r_par)
+            rows_again = sorted(tuple(int(x) for x in r) for r in again.data[JCOLS].to_numpy())
+        except ValueError as exc:
+            if 'No jumps found' not in str(exc):
+                raise
+            rows_again = []
+        rows_part = sorted(tuple(int(x) for x in r) for r in p.data[JCOLS].to_numpy())
+        if not ctx.check(rows_part == rows_again, f'{what}: part {pi} of Jumps.split({n_parts}) holds {len(rows_part)} jumps; its own transitions counted with the parent setting minimal_residence={r_par} give {len(rows_again)}', wit):
+            break
+    ctx.count('split_parts_recounted_with_parent_settings', len(parts))
+    ctx.count('split_parts_recounted_with_residence>0', len(parts) if r_par > 0 else 0)
     part_time = T * sys_.time_step / n_parts
     ok = True
     for (la, lb) in {(x, y) for x in lab for y in lab}:
@@ -242,7 +259,7 @@ def run_unit(unit, rng, ctx):
                     raise
         n_j = 0
         try:
-            j = tr.jumps(minimal_residence=int(rng.choice([0, 0, 2])))
+            j = tr.jumps(minimal_residence=int(rng.choice([0, 0, 2, 3])))
         except ValueError as exc:
             if 'No jumps found' not in str(exc):
                 raise
